@@ -109,7 +109,12 @@ SLOT_SHAPES = {"paren": lambda x, n: "(" * n + x + ")" * n,
                "neg": lambda x, n: "-(" * n + x + ")" * n,
                "pow": lambda x, n: (x + " ** ") * n + x,
                "callneg": lambda x, n: "f(-" * n + x + ")" * n,
-               "mixed": lambda x, n: ("(" + x + " * f(") * n + x + "))" * n}
+               "mixed": lambda x, n: ("(" + x + " * f(") * n + x + "))" * n,
+               "callpct": lambda x, n: "f(" * n + "a%b(" + x + ")" + ")" * n,
+               "callstr": lambda x, n: "f(" * n + "'50%', " + x + ")" * n,
+               "callsigned": lambda x, n: "f(" * n + x + ", -1.0)" * n,
+               "callkw": lambda x, n: "f(k=" * n + x + ")" * n,
+               "section": lambda x, n: "a(" * n + x + ":)" * n}
 SLOT_SIZES = [1, 2, 4, 8, 16]
 SLOT_CAP = 600000     # a slot family needs a few hundred calls at n = 1; 4 * c(1) * 16^2 stays far below this
 
@@ -136,7 +141,7 @@ def slot_source(name, n):
 
 def slot_families(tier, seed):
     from .. import catalogue
-    stride = 2 if tier == "quick" else 1
+    stride = 3 if tier == "quick" else 1
     out = []
     for kind in ("s", "decl"):
         tab = catalogue.table(kind)
